@@ -17,6 +17,7 @@ import (
 	"fmt"
 	"net/url"
 	"os"
+	"path/filepath"
 	"regexp"
 	"sort"
 	"strings"
@@ -526,6 +527,10 @@ func Run(cfg hx.Config) error {
 	e := &env{r: r, rnd: hx.NewRand(cfg.Seed).Fork(), cfg: cfg}
 	r.Rule = "comparator lines: spellings of abstract versions (order known by construction), free-form strings and single edits; matcher lines: all (package, fix) pairs of version chains sorted by the scheme's order, with every ArchOp branch; non-trivial = the two version strings differ (comparators) / any matcher call"
 	r.Op("reset", "ok", false)
+	if err := e.corpus(); err != nil {
+		return err
+	}
+	e.rpmCaretWitness()
 	e.archOps(cfg.N(300, 3000))
 	e.rpmCompareOps(cfg.N(6000, 200000))
 	e.rpmMatcherOps(cfg.N(40, 2000))
@@ -1112,5 +1117,104 @@ func (e *env) osvFreeOps(n int) {
 		fixedIn := strings.Join(parts, "&")
 		got := e.osvCall(sc, pv, fixedIn)
 		r.Count("osv-free:" + sc.name + ":" + got)
+	}
+}
+
+// ---- corpus and witnesses ----
+
+func undash(s string) string {
+	if s == "-" {
+		return ""
+	}
+	return s
+}
+
+// corpus replays corpus/C03/*.txt through the same paths as generated cases.
+func (e *env) corpus() error {
+	if e.cfg.Corpus == "" {
+		return nil
+	}
+	files, _ := filepath.Glob(filepath.Join(e.cfg.Corpus, "*.txt"))
+	sort.Strings(files)
+	for _, f := range files {
+		b, err := os.ReadFile(f)
+		if err != nil {
+			return err
+		}
+		for _, line := range strings.Split(string(b), "\n") {
+			w := strings.Fields(line)
+			if len(w) == 0 || strings.HasPrefix(w[0], "#") {
+				continue
+			}
+			e.r.Count("corpus:" + w[0])
+			switch {
+			case w[0] == "rpmcmp" && len(w) == 3:
+				a, b := undash(w[1]), undash(w[2])
+				e.r.Op("rpmcmp "+hexs(a)+" "+hexs(b), timed(5*time.Second, func() string { return sign(rpmver.NewVersion(a).Compare(rpmver.NewVersion(b))) }), true)
+			case w[0] == "apkcmp" && len(w) == 3:
+				a, b := undash(w[1]), undash(w[2])
+				e.r.Op("apkcmp "+hexs(a)+" "+hexs(b), timed(5*time.Second, func() string { return apkCompare(a, b) }), true)
+			case w[0] == "debcmp" && len(w) == 3:
+				a, b := undash(w[1]), undash(w[2])
+				line := "debcmp " + hexs(a) + " " + hexs(b)
+				if debHangShape(a, b) {
+					e.deferAlways(probeReq{"debcmp", []string{a, b}}, line, func(got string) {
+						if got == "hang" {
+							e.r.Fail(findingDebHang, fmt.Sprintf("go-deb-version Compare(%q,%q) does not return", a, b))
+						}
+					})
+				} else {
+					e.r.Op(line, timed(5*time.Second, func() string { return debCompare(a, b) }), true)
+				}
+			case w[0] == "vuln" && len(w) == 4:
+				m := matcherByName(w[1])
+				if m == nil {
+					return fmt.Errorf("corpus %s: unknown matcher %q", f, w[1])
+				}
+				p, a := pkg{version: undash(w[2])}, advisory{fixed: undash(w[3])}
+				var rc *rhelCase
+				if w[1] == "rhel" {
+					c := rhelCases()[0]
+					rc = &c
+				}
+				line := vulnLine(w[1], p, a, rc)
+				if (w[1] == "debian" || w[1] == "ubuntu") && a.fixed != "" && debHangShape(p.version, a.fixed) {
+					name := w[1]
+					e.deferAlways(probeReq{"vuln", []string{name, p.version, a.fixed}}, line, func(got string) {
+						if got == "hang" {
+							e.r.KnownSeen(findingDebHang, fmt.Sprintf("%s Vulnerable(package %s, fixed %s) does not return", name, p.version, a.fixed))
+						}
+					})
+				} else {
+					e.r.Op(line, call(m, p, a, rc), true)
+				}
+			default:
+				return fmt.Errorf("corpus %s: bad line %q", f, line)
+			}
+		}
+	}
+	return nil
+}
+
+const findingRpmCaret = "rpm-caret"
+
+// rpmCaretWitness replays the witness of the finding rpm-caret: rpm (>= 4.15)
+// sorts 1.0^20230101 below 1.0.5 (a caret suffix is newer than the base
+// version and older than any further release component); the pinned
+// go-rpm-version has no caret, reads ^ as a separator and compares 20230101
+// with 5.
+func (e *env) rpmCaretWitness() {
+	p, a := pkg{version: "1.0^20230101-1.el9"}, advisory{fixed: "1.0.5-1.el9"}
+	for _, m := range rpmMatchers() {
+		var rc *rhelCase
+		if m.name == "rhel" {
+			c := rhelCases()[0]
+			rc = &c
+		}
+		got := call(m.m, p, a, rc)
+		e.r.Case("caret "+m.name, true)
+		if got == "false" {
+			e.r.KnownSeen(findingRpmCaret, fmt.Sprintf("%s Vulnerable(package %s, fixed %s)=false; rpm orders 1.0^20230101 below 1.0.5", m.name, p.version, a.fixed))
+		}
 	}
 }
